@@ -1,8 +1,9 @@
 #!/usr/bin/env python3
 """Print the markdown table of DESIGN.md section 10.2 from /verif/seeded/<id>/meta.json."""
-import glob, json, os
+import glob, json, os, sys
 rows=[]
-for d in sorted(glob.glob('/verif/seeded/c[0-9][0-9]')):
+pattern='/verif/seeded/c[0-9][0-9]-b' if len(sys.argv)>1 and sys.argv[1]=='b' else '/verif/seeded/c[0-9][0-9]'
+for d in sorted(glob.glob(pattern)):
     m=json.load(open(d+'/meta.json'))
     sid=os.path.basename(d)
     readme=open(d+'/README.seeding-agent.md').read() if os.path.exists(d+'/README.seeding-agent.md') else ''
@@ -10,7 +11,7 @@ for d in sorted(glob.glob('/verif/seeded/c[0-9][0-9]')):
     caught=[]
     for k,v in sorted(m['my_checks_on_patched_tree'].items()):
         if v.get('credited') is False: continue
-        if v['exit']==1: caught.append(f"{k}: `{(v['signatures'] or ['?'])[0]}`")
+        if v['exit']==1: caught.append(f"{k}: `{(v['signatures'] or ['?'])[0].replace('|','/')}`")
     missed=[k for k,v in sorted(m['my_checks_on_patched_tree'].items()) if v['exit']==0]
     rows.append(f"| `{sid}` | {m['breaks_property']} | {title[:150]} | {'; '.join(caught) or '—'} | {', '.join(missed) or '—'} | {m.get('history','caught at first run.')} |")
 print("| seed | property | change (seeding agent's title) | caught by (quick tier): first signature | other checks run that stayed silent | history |")
